@@ -24,7 +24,22 @@ import (
 	"github.com/postalsys/muti-metroo/internal/vmc"
 )
 
-func c11Check(r *vmc.Result, sc nsFloodScenario) func(nt *nsNet, hist []string) {
+// c11Scenario is a flood scenario whose announcements may be restricted to some agents
+// (Announcers nil = every agent announces, as in the shared driver).
+type c11Scenario struct {
+	nsFloodScenario
+	Announcers []int `json:"announcers,omitempty"`
+}
+
+func (sc c11Scenario) String() string {
+	s := sc.nsFloodScenario.String()
+	if sc.Announcers != nil {
+		s += fmt.Sprintf(" announcers=%v", sc.Announcers)
+	}
+	return s
+}
+
+func c11Check(r *vmc.Result, sc c11Scenario) func(nt *nsNet, hist []string) {
 	return func(nt *nsNet, hist []string) {
 		rep := func() any { s := sc; s.History = hist; return s }
 		expired := false
@@ -87,10 +102,10 @@ func TestVerif_C11(t *testing.T) {
 	r.Rule = "BFS over all interleavings of announcements, deliveries, one duplicate delivery and one seen-cache expiry in meshes of real agents (every connected graph up to 3/4 agents); non-trivial = distinct (scenario, frames-per-announcement) observations"
 	r.Assume("links are FIFO; duplication re-delivers an already delivered frame; expiry = ageing the seen cache past its TTL and running the real cleanup")
 	r.Assume("map iteration order fixed to sorted order by the maprange rewriter")
-	var rp nsFloodScenario
+	var rp c11Scenario
 	var srp c11SchedReplay
 	if r.ReplayInto(&srp) && srp.Sched {
-		c11SchedRun(r, srp.Threads, vmc.NewReplayChooser(srp.Choices))
+		c11SchedRun(r, srp.Threads, srp.Extra, vmc.NewReplayChooser(srp.Choices))
 		r.Add("states", 1)
 		r.Add("transitions", 1)
 		if err := r.Finish(); err != nil {
@@ -99,7 +114,7 @@ func TestVerif_C11(t *testing.T) {
 		return
 	}
 	if r.ReplayInto(&rp) {
-		nt, err := nsFloodBuild(rp, rp.History)
+		nt, err := nsFloodBuild(rp.nsFloodScenario, rp.History)
 		if err != nil {
 			t.Fatal(err)
 		}
@@ -111,19 +126,40 @@ func TestVerif_C11(t *testing.T) {
 		}
 		return
 	}
-	var scs []nsFloodScenario
+	// Order matters only for what is left out when a shard runs into its deadline / memory budget: the
+	// scenarios that reach their fixpoint quickly come first, the 4-agent graphs with four interleaved
+	// floods and the complete graph (10^5-10^6 states each, thorough tier) last.
+	var scs, big []c11Scenario
 	maxN := vmc.Pick(r, 3, 4)
 	for n := 2; n <= maxN; n++ {
 		for _, g := range nsGraphs(n) {
-			scs = append(scs, nsFloodScenario{N: n, Edges: g, Exits: []int{0}, Announces: 1})
+			sc := c11Scenario{nsFloodScenario: nsFloodScenario{N: n, Edges: g, Exits: []int{0}, Announces: 1}}
+			if n <= 3 {
+				scs = append(scs, sc)
+			} else {
+				big = append(big, sc)
+			}
 			if n <= 3 && (r.Thorough() || len(g) == n-1) {
-				scs = append(scs, nsFloodScenario{N: n, Edges: g, Exits: []int{0}, Announces: 1, MaxDup: 1, MaxExpire: 1})
+				sc := c11Scenario{nsFloodScenario: nsFloodScenario{N: n, Edges: g, Exits: []int{0}, Announces: 1, MaxDup: 1, MaxExpire: 1}}
+				if len(g) == n-1 {
+					scs = append(scs, sc)
+				} else {
+					big = append(big, sc) // triangle with duplicate and expiry, thorough tier
+				}
 			}
 		}
 	}
 	if r.Thorough() {
-		scs = append(scs, nsFloodScenario{N: 3, Edges: [][2]int{{0, 1}, {1, 2}}, Exits: []int{0}, Announces: 2, MaxDup: 1})
+		scs = append(scs, c11Scenario{nsFloodScenario: nsFloodScenario{N: 3, Edges: [][2]int{{0, 1}, {1, 2}}, Exits: []int{0}, Announces: 2, MaxDup: 1}})
 	}
+	for _, sc := range c11CycleScenarios(r) {
+		if len(sc.Edges) == 6 {
+			big = append(big, sc)
+		} else {
+			scs = append(scs, sc)
+		}
+	}
+	scs = append(scs, big...)
 	c11Sched(r)
 	for si, sc := range scs {
 		if si%r.Shards != r.Shard {
@@ -133,7 +169,7 @@ func TestVerif_C11(t *testing.T) {
 			break
 		}
 		t0 := time.Now()
-		st := nsFloodBFS(r, sc, 0, c11Check(r, sc))
+		st := c11BFS(r, sc, c11Check(r, sc))
 		fmt.Printf("C11 scenario %s: states=%d transitions=%d depth=%d complete=%v in %v\n", sc, st.States, st.Transitions, st.Depth, st.Complete, time.Since(t0))
 		r.Add("states", st.States)
 		r.Add("transitions", st.Transitions)
